@@ -53,9 +53,13 @@ fn gen_raw_op(rng: &mut Rng, out: &mut Out) -> WalOpRaw {
         out.count(if klen == 0 { "walop.put.emptykey" } else if klen > 8000 { "walop.put.bigkey" } else { "walop.put" });
         WalOpRaw::Put { key_bytes: rng.bytes(klen), hash: BlobHash(h32(rng, 200)), size: size_val(rng) }
     } else {
-        let n = match rng.below(10) {
-            0 => 0,
-            1 => 600,
+        // counts: the usual few, 600, and — rarely — the round numbers where a cap could sit
+        let n = match rng.below(40) {
+            0..=3 => 0,
+            4..=6 => 600,
+            7 => *rng.pick(&[255usize, 256, 257]),
+            8 => *rng.pick(&[1023usize, 1024, 1025]),
+            9 => *rng.pick(&[4095usize, 4096, 4097, 10_000]),
             _ => rng.below(6) as usize,
         };
         out.count(if n == 0 { "walop.remove.nokeys" } else if n > 100 { "walop.remove.manykeys" } else { "walop.remove" });
